@@ -730,4 +730,3 @@ def s8(prog, rep, P, sites, tag=""):
                 "%s frees the slot (->None) without first clearing its first-datagram marker, and the receive-side lookup does not test the slot state: when the 8-bit index comes round, the stale slot is found first and the genuine response to a live request is rejected" % s["fn"],
                 loc=s["call"].span,
             )
-    _ = grp
